@@ -13,7 +13,11 @@ Four workloads, all executing the real pyxel code on files the harness writes it
                  placement x (time_step / time_scale) [x multiplier].
 * ``stale``      one path rewritten several times inside one process, every consumer called
                  with identical arguments after every rewrite: the result must be the content
-                 of the file *now*.
+                 of the file *now*.  The path is spelled in every way pyxel accepts: absolute,
+                 relative to the current directory, relative to the 'working_directory' option
+                 (set through pyxel.set_options and through the running mode, str and Path, plain
+                 and in sub-folders, also switched between two directories from run to run),
+                 absolute while an unrelated working directory is set, and '~/...'.
 
 The oracles (``oracle_*``) use numpy only -- no pyxel import, no slicing arithmetic shared with
 the implementation (gather through index arrays).
@@ -41,7 +45,10 @@ RULE = ("file round trips: arrays 1x1..9x9 (25% one-row, 25% one-column, a few l
         "through load_cropped_and_aligned_image on files; non-trivial = not the identical copy at offset 0. "
         "models: random detector / input / position / alignment / time_step / time_scale / multiplier, direct "
         "call and run_mode exposure with 1-3 readout times. stale: 2-4 versions of one path (same shape, "
-        "different shape, same byte size), in-place and rename rewrites. distinct = distinct case signatures")
+        "different shape, same byte size), in-place and rename rewrites, the path spelled absolute / relative to "
+        "the current directory / relative to the working_directory option (str or Path, with and without "
+        "sub-folder, also alternating between two working directories) / absolute under an unrelated working "
+        "directory / with '~'. distinct = distinct case signatures")
 ASSUMPTIONS = [
     "the file system records a new modification time for a rewritten file (the harness re-writes until "
     "st_mtime_ns differs from the previous version; same-size rewrites with a forcibly restored mtime are not driven)",
@@ -51,12 +58,19 @@ ASSUMPTIONS = [
     "allow_smaller_array=False is a documented refusal: whether it refuses is counted, not judged; whatever is "
     "returned must still obey the placement rule",
     "xlsx, image formats (png/jpg/...), HDF5 and remote URLs are not driven",
+    "a relative file name designates the file below the 'working_directory' option when one is set and below the "
+    "current directory otherwise; an absolute name is not affected by the option (documented behaviour of the option)",
+    "'~' names: the loaders accept them, but a rewritten file is served from the memoised loader (signature taken "
+    "without expanding '~'); reported, counted (stale_content_observed_not_raised_home-relative) and not raised "
+    "until the maintainers answer",
 ]
 REQUIRED_COUNTERS = [
     "rt_load_image_checked", "rt_load_table_checked", "rt_load_header_checked",
     "place_offset_checked", "place_align_checked", "place_nonoverlap_rejected", "place_pixels_compared",
     "lcai_checked", "model_load_image_checked", "model_load_charge_checked", "model_pipeline_runs_checked",
     "model_nonoverlap_rejected", "stale_reloads_checked", "stale_rewrites",
+    "stale_reloads_absolute", "stale_reloads_cwd-relative", "stale_reloads_workdir-relative",
+    "stale_reloads_workdir-switch", "stale_reloads_workdir-absolute",
 ]
 TIMEOUT = {"quick": 600, "thorough": 3000}
 
@@ -253,9 +267,13 @@ def write_bytes_of(fmt, arr, **kw):
     return {"npy": w_npy, "fits": w_fits, "fits_table": w_fits_table, "text": w_text}[fmt]
 
 
-def write_version(path, writer, how, rec=None):
+def write_version(path, writer, how, rec=None, avoid=None):
     """(Re)write ``path``; repeat until the file system shows a modification time that differs
-    from the previous version's (coarse-grained clocks can repeat a time stamp within a tick)."""
+    from the previous version's (coarse-grained clocks can repeat a time stamp within a tick).
+
+    ``avoid``: set of modification times of earlier versions that live under *other* real paths but are
+    reached through the same file-name argument (working directory switched between runs); the time
+    stamp of the new version is kept distinct from those too and added to the set."""
     prev = os.stat(path).st_mtime_ns if os.path.exists(path) else None
     for attempt in range(400):
         if how == "rename" and prev is not None:
@@ -264,7 +282,10 @@ def write_version(path, writer, how, rec=None):
             os.replace(tmp, path)
         else:
             writer(path)
-        if prev is None or os.stat(path).st_mtime_ns != prev:
+        now = os.stat(path).st_mtime_ns
+        if now != prev and (avoid is None or now not in avoid):
+            if avoid is not None:
+                avoid.add(now)
             return
         if rec is not None:
             rec.count("stale_rewrite_retries_same_mtime")
@@ -841,7 +862,45 @@ def stale_versions(rng, fmt, n_versions):
     return arrays, relations
 
 
+# How the file is *named* to pyxel.  The same real file can be reached through an absolute name, a name
+# relative to the current directory of the process, a name relative to the 'working_directory' option
+# (what a YAML configuration with 'working_directory:' gives) or a '~' name; the statement quantifies over
+# the path, not over one spelling of it.
+NAMINGS = ["absolute", "workdir-relative", "cwd-relative", "workdir-switch",
+           "absolute", "workdir-absolute", "workdir-relative", "home-relative"]
+# reported to the maintainers, counted but not raised until answered (see LEVEL_NOTE)
+OBSERVE_ONLY_NAMINGS = {"home-relative"}
+
+
+class process_dirs:
+    """Temporarily change the current directory and/or HOME of this worker process."""
+
+    def __init__(self, cwd=None, home=None):
+        self.cwd, self.home = cwd, home
+
+    def __enter__(self):
+        self.old_cwd = os.getcwd()
+        self.old_home = os.environ.get("HOME")
+        if self.cwd:
+            os.chdir(self.cwd)
+        if self.home:
+            os.environ["HOME"] = self.home
+        return self
+
+    def __exit__(self, *exc):
+        os.chdir(self.old_cwd)
+        if self.home:
+            if self.old_home is None:
+                os.environ.pop("HOME", None)
+            else:
+                os.environ["HOME"] = self.old_home
+        return False
+
+
 def run_stale(spec, rec):
+    import pathlib
+    import shutil
+
     import pyxel
     from pyxel.exposure import Exposure, Readout
     from pyxel.inputs import load_image as in_load_image
@@ -855,10 +914,9 @@ def run_stale(spec, rec):
             continue
         rng = rec.rng(i)
         fmt = ["npy", "fits", "text", "npy"][i % 4]
+        naming = NAMINGS[(i // 4 + spec["part"]) % len(NAMINGS)]
         dname = rng.choice(list(DELIMS))
         suffix = {"npy": ".npy", "fits": ".fits", "text": rng.choice([".txt", ".data"])}[fmt]
-        path = os.path.join(rec.tmp, f"st_{i}{suffix}")
-        other = os.path.join(rec.tmp, f"st_{i}_other{suffix}")
         n_versions = rng.randint(2, 4)
         arrays, relations = stale_versions(rng, fmt, n_versions)
         rows, cols = rng.randint(1, 6), rng.randint(1, 6)
@@ -876,19 +934,57 @@ def run_stale(spec, rec):
         how = rng.choice(["inplace", "rename"])
         det_kind = rng.choice(["ccd", "cmos"])
         dspec = build.default_detector_spec(det_kind, rows, cols)
-        arg = as_arg(path, rng)
+
+        # ---- layout on disk (harness side, absolute) and the name handed to pyxel
+        root = os.path.join(rec.tmp, f"st_{i}")
+        dir_a, dir_b, dir_idle = (os.path.join(root, d) for d in ("a", "b", "idle"))
+        sub = rng.choice(["", "", "in", "data/maps"])
+        rel = os.path.join(sub, f"st_{i}{suffix}")
+        rel_other = os.path.join(sub, f"st_{i}_other{suffix}")
+        for d in (os.path.join(dir_a, sub), os.path.join(dir_b, sub), dir_idle):
+            os.makedirs(d, exist_ok=True)
+        wd_as_path = rng.random() < 0.4
+        dot = rng.random() < 0.3
+
+        def spelled(relative):
+            if naming in ("absolute", "workdir-absolute"):
+                return os.path.join(dir_a, relative)
+            if naming == "cwd-relative":
+                return "./" + relative if dot else relative
+            if naming == "home-relative":
+                return "~/" + relative
+            return relative        # relative to the working directory
+
+        def location(v):
+            """Directory under which version ``v`` really lives."""
+            return dir_b if naming == "workdir-switch" and v % 2 else dir_a
+
+        def working_directory(v):
+            wd = {"workdir-relative": dir_a, "workdir-switch": location(v), "workdir-absolute": dir_b}.get(naming)
+            return pathlib.Path(wd) if wd and wd_as_path else wd
+
+        name = spelled(rel)
+        other = spelled(rel_other)
+        arg = as_arg(name, rng)
         case = {"format": fmt if fmt != "text" else f"text-{dname}", "rewrite": how, "det_shape": [rows, cols],
                 "align": align, "position": list(position) if position else None, "relations": relations,
-                "versions": [a.tolist() for a in arrays], "time_scale": time_scale, "time_step": time_step}
+                "versions": [a.tolist() for a in arrays], "time_scale": time_scale, "time_step": time_step,
+                "naming": naming, "file_name_given": name.replace(rec.tmp, "<tmp>"), "subfolder": sub,
+                "file_name_type": type(arg).__name__,
+                "working_directory_type": ("Path" if wd_as_path else "str") if working_directory(0) else None}
         other_arr = gen_array(rng, rand_shape(rng, 1, 7), "distinct")
         if not use_align:
             other_arr = gen_array(rng, (max(min_h, other_arr.shape[0]), max(min_w, other_arr.shape[1])), "distinct")
-        write_bytes_of(fmt, other_arr, sep=DELIMS[dname])(other)
+        for d in {location(0), location(1)}:
+            write_bytes_of(fmt, other_arr, sep=DELIMS[dname])(os.path.join(d, rel_other))
+        if naming == "workdir-absolute":
+            # same relative name below the working directory, other content: an absolute name must not end there
+            write_bytes_of(fmt, other_arr + 1000, sep=DELIMS[dname])(os.path.join(dir_b, rel))
 
         def offsets_of(arr):
             return oracle_align_offsets(align, arr.shape, out_shape) if align else [position]
 
-        def consumers():
+        def consumers(wd):
             """name -> (callable returning the array, scale factor)"""
             def c_lcai():
                 kw = {"shape": out_shape, "filename": arg}
@@ -902,7 +998,7 @@ def run_stale(spec, rec):
                 det = build.make_detector(dspec)
                 det.set_readout(times=[1.0])
                 det.time_step = time_step
-                load_image(det, image_file=str(path), time_scale=time_scale, **place_kw)
+                load_image(det, image_file=name, time_scale=time_scale, **place_kw)
                 return det.photon.array
 
             def c_model_charge():
@@ -917,12 +1013,13 @@ def run_stale(spec, rec):
                 if "position" in kw:
                     kw["position"] = list(kw["position"])
                 pspec = {"photon_collection": [{"name": "load_image", "func": FUNC_LOAD_IMAGE, "enabled": True,
-                                                "arguments": dict(kw, image_file=str(path), time_scale=time_scale)}],
+                                                "arguments": dict(kw, image_file=name, time_scale=time_scale)}],
                          "readout_electronics": [{"name": "image_writer", "func": "vf.probes.writer", "enabled": True,
                                                   "arguments": {"plan": {"*": ["image"]}, "seed": 1}}]}
                 det = build.make_detector(dspec)
-                tree = pyxel.run_mode(mode=Exposure(readout=Readout(times=[time_step])), detector=det,
-                                      pipeline=build.make_pipeline(pspec))
+                # the route of a YAML file: the running mode carries the working directory
+                mode = Exposure(readout=Readout(times=[time_step]), working_directory=str(wd) if wd else None)
+                tree = pyxel.run_mode(mode=mode, detector=det, pipeline=build.make_pipeline(pspec))
                 return tree_var(tree, "photon")[0]
 
             return {"load_cropped_and_aligned_image": (c_lcai, 1.0),
@@ -933,61 +1030,75 @@ def run_stale(spec, rec):
         chosen = ["load_cropped_and_aligned_image", "model-load_image", "model-load_charge"]
         if i % 2 == 0:
             chosen.append("pipeline-load_image")
-        cons = consumers()
+        mech_class = "" if naming == "absolute" else f":path-{naming}"
+        seen_mtimes = set()
         try:
-            for v, arr in enumerate(arrays):
-                write_version(path, write_bytes_of(fmt, arr, sep=DELIMS[dname]), how, rec)
-                if v:
-                    rec.count("stale_rewrites")
-                    rec.observe("stale_relations", relations[v])
-                for name in chosen:
-                    fn, factor = cons[name]
-                    got = fn()
-                    rec.count("stale_reloads_checked" if v else "stale_first_loads_checked")
-                    if matches_any(got, arr, out_shape, offsets_of(arr), factor):
-                        continue
-                    old = [u for u in range(v) if matches_any(got, arrays[u], out_shape, offsets_of(arrays[u]), factor)]
-                    if old:
-                        rec.violation("C20:memoised-loader-ignores-file-change",
-                                      f"{name}: after rewriting the file ({relations[v]}, {how}) version {v} was "
-                                      f"expected but the result is the content of version {old[-1]}", case, i)
-                    else:
-                        exp = oracle_place(arr, out_shape, *offsets_of(arr)[0]) * factor
-                        rec.violation(f"C20:stale:{name}:wrong-content",
-                                      f"version {v} ({relations[v]}): {first_difference(got, exp)}", case, i)
-                # the plain loaders on the rewritten path
-                got = in_load_image(arg)
-                rec.count("stale_plain_loads_checked")
-                if not (np.shape(got) == arr.shape and same_values(got, arr)):
-                    rec.violation("C20:stale:inputs.load_image:not-current-content",
-                                  f"version {v} ({relations[v]}): shape {np.shape(got)} vs {arr.shape}", case, i)
-                if fmt != "fits":
-                    got = in_load_table(arg).to_numpy()
-                    if not (got.shape == arr.shape and same_values(got, arr)):
-                        rec.violation("C20:stale:inputs.load_table:not-current-content",
-                                      f"version {v} ({relations[v]}): shape {got.shape} vs {arr.shape}", case, i)
-                # a second path with the same arguments must not be confused with the first
-                kw = {"shape": out_shape, "filename": other}
-                if align:
-                    kw["align"] = align
-                else:
-                    kw.update(position_y=position[0], position_x=position[1])
-                got = load_cropped_and_aligned_image(**kw)
-                offs = oracle_align_offsets(align, other_arr.shape, out_shape) if align else [position]
-                if not matches_any(got, other_arr, out_shape, offs, 1.0):
-                    rec.violation("C20:stale:other-path:wrong-content",
-                                  "a second file loaded with the same arguments returned another content", case, i)
+            with process_dirs(cwd=dir_a if naming == "cwd-relative" else dir_idle,
+                              home=dir_a if naming == "home-relative" else None):
+                for v, arr in enumerate(arrays):
+                    write_version(os.path.join(location(v), rel), write_bytes_of(fmt, arr, sep=DELIMS[dname]), how, rec,
+                                  avoid=seen_mtimes)
+                    wd = working_directory(v)
+                    cons = consumers(wd)
+                    if v:
+                        rec.count("stale_rewrites")
+                        rec.observe("stale_relations", relations[v])
+                    for cname in chosen:
+                        fn, factor = cons[cname]
+                        with pyxel.set_options(working_directory=wd):
+                            got = fn()
+                        rec.count("stale_reloads_checked" if v else "stale_first_loads_checked")
+                        if v:
+                            rec.count(f"stale_reloads_{naming}")
+                            rec.observe("stale_path_namings", naming)
+                        if matches_any(got, arr, out_shape, offsets_of(arr), factor):
+                            continue
+                        old = [u for u in range(v) if matches_any(got, arrays[u], out_shape, offsets_of(arrays[u]), factor)]
+                        if old and naming in OBSERVE_ONLY_NAMINGS:
+                            rec.count(f"stale_content_observed_not_raised_{naming}")
+                        elif old:
+                            rec.violation("C20:memoised-loader-ignores-file-change" + mech_class,
+                                          f"{cname}: file named {naming} ({case['file_name_given']!r}); after rewriting "
+                                          f"it ({relations[v]}, {how}) version {v} was expected but the result is the "
+                                          f"content of version {old[-1]}", case, i)
+                        else:
+                            exp = oracle_place(arr, out_shape, *offsets_of(arr)[0]) * factor
+                            rec.violation(f"C20:stale:{cname}:wrong-content" + mech_class,
+                                          f"version {v} ({relations[v]}): {first_difference(got, exp)}", case, i)
+                    with pyxel.set_options(working_directory=wd):
+                        # the plain loaders on the rewritten path
+                        got = in_load_image(arg)
+                        rec.count("stale_plain_loads_checked")
+                        if not (np.shape(got) == arr.shape and same_values(got, arr)):
+                            rec.violation("C20:stale:inputs.load_image:not-current-content" + mech_class,
+                                          f"version {v} ({relations[v]}): shape {np.shape(got)} vs {arr.shape}", case, i)
+                        if fmt != "fits":
+                            got = in_load_table(arg).to_numpy()
+                            if not (got.shape == arr.shape and same_values(got, arr)):
+                                rec.violation("C20:stale:inputs.load_table:not-current-content" + mech_class,
+                                              f"version {v} ({relations[v]}): shape {got.shape} vs {arr.shape}", case, i)
+                        # a second path with the same arguments must not be confused with the first
+                        kw = {"shape": out_shape, "filename": other}
+                        if align:
+                            kw["align"] = align
+                        else:
+                            kw.update(position_y=position[0], position_x=position[1])
+                        got = load_cropped_and_aligned_image(**kw)
+                    offs = oracle_align_offsets(align, other_arr.shape, out_shape) if align else [position]
+                    if not matches_any(got, other_arr, out_shape, offs, 1.0):
+                        rec.violation("C20:stale:other-path:wrong-content" + mech_class,
+                                      "a second file loaded with the same arguments returned another content", case, i)
         except Exception as exc:  # noqa: BLE001
             import traceback
-            rec.violation("C20:stale:unexpected-exception",
+            rec.violation("C20:stale:unexpected-exception" + mech_class,
                           f"{type(exc).__name__}: {str(exc)[:300]} :: {traceback.format_exc()[-700:]}", case, i)
+        finally:
+            pyxel.set_options(working_directory=None)
         rec.observe("stale_formats", case["format"])
         rec.observe("stale_rewrite_methods", how)
-        rec.case(("stale", i, spec["part"], fmt, relations, how, align, position), True,
+        rec.case(("stale", i, spec["part"], fmt, relations, how, align, position, naming, sub), True,
                  sample=case if sum(a.size for a in arrays) <= 16 else None)
-        for f in (path, other):
-            if os.path.exists(f):
-                os.remove(f)
+        shutil.rmtree(root, ignore_errors=True)
 
 
 # ====================================================================== entry points
@@ -1020,6 +1131,9 @@ def finalize(counters, sets, tier):
     miss = {"same-shape", "different-shape"} - set(sets.get("stale_relations", []))
     if miss:
         out.append(f"rewrite relations never observed: {sorted(miss)}")
+    miss = set(NAMINGS) - set(sets.get("stale_path_namings", []))
+    if miss:
+        out.append(f"rewritten files never re-loaded through these spellings of the path: {sorted(miss)}")
     want = EXH_BOUND[tier] ** 4
     if counters.get("exh_pairs_done", 0) != want:
         out.append(f"exhaustive placement enumeration incomplete: {counters.get('exh_pairs_done', 0)}/{want} shape pairs")
@@ -1051,7 +1165,9 @@ LEVEL_TEXT = ("Exploration by runtime monitoring: hundreds (quick) to thousands 
               "5x5 quick / 7x7 thorough, all offsets from -(size+1) to out+1, five alignments) against a pixel-by-pixel "
               "placement oracle, random larger placements also through load_cropped_and_aligned_image; the real "
               "load_image / load_charge models run directly and through run_mode on real detectors; files are "
-              "rewritten between loads of one process. Held = on the executions observed.")
+              "rewritten between loads of one process, the path being given absolute, relative to the current directory "
+              "and relative to the working_directory option. Held = on the executions observed.")
 LEVEL_NOTE = ("Trusted: numpy.save, astropy.io.fits writers and Python's repr()/%.17g float formatting used to write "
               "the inputs; the 25-line placement oracle; the alignment convention copied from the documentation "
-              "(pixel (0,0) bottom-left). Not driven: same-size rewrites with an unchanged modification time.")
+              "(pixel (0,0) bottom-left). Not driven: same-size rewrites with an unchanged modification time. Observe-only: stale "
+              "content for '~' file names (reported defect of the unchanged tree).")
